@@ -8,11 +8,22 @@ import (
 	"strings"
 )
 
-// genAll is extended as more tables are needed.
+// generators are registered by the files of this package (one file per table family), so that
+// adding a table never edits a shared file: `func init() { registerGen(genXxx) }`.
+var generators []func()
+
+func registerGen(f func()) { generators = append(generators, f) }
+
+func init() {
+	registerGen(genCode)
+	registerGen(genTree)
+	registerGen(genRunner)
+}
+
 func genAll() {
-	genCode()
-	genTree()
-	genRunner()
+	for _, g := range generators {
+		g()
+	}
 }
 
 func findFunc(files []*ast.File, name string) *ast.FuncDecl {
